@@ -63,7 +63,7 @@ PROPS['C07'] = {
         {'name': 'selftest-dbg', 'flavour': 'asan-dbg', 'driver': 'drv_c07', 'env': {'PV_SCALE': '100'}, 'args': [], 'shards': 4,
          'tiers': ('thorough',)},
     ],
-    'require': {'registry.languages_found': 10, 'encode.calls': 300000, 'decode_explicit.calls': 327680, 'lists.abbreviation_decodes': 6 * 2048, 'homogeneous.phrases': 200, 'homogeneous.ok.en.len3': 4},
+    'require': {'firstuse.children_ok': 60, 'registry.languages_found': 10, 'encode.calls': 300000, 'decode_explicit.calls': 327680, 'lists.abbreviation_decodes': 6 * 2048, 'homogeneous.phrases': 200, 'homogeneous.ok.en.len3': 4},
     'assumptions': ['"published at the pinned release" = golden/*.txt extracted from the pinned commit; not cross-checked against BIP-39 (offline)'],
 }
 
@@ -117,7 +117,7 @@ PROPS['C08'] = {
     'exhaustive_possible': True,
     'runs': [{'name': 'asan', 'flavour': 'asan', 'driver': 'drv_c08', 'timeout': 1800},
              {'name': 'native', 'flavour': 'asan-native', 'driver': 'drv_c08', 'env': {'PV_SCALE': '10'}, 'shards': 6, 'timeout': 1800}],
-    'require': {'words.swept': 2048 * 3 + 7 * 512, 'tokens.prefix.en.accepted': 2500, 'tokens.prefix.en.rejected': 5000,
+    'require': {'auto.ERR_LANG': 20000, 'auto.OK': 4000, 'auto.preceded_by_a_successful_restore_in_the_same_language': 10000, 'words.swept': 2048 * 3 + 7 * 512, 'tokens.prefix.en.accepted': 2500, 'tokens.prefix.en.rejected': 5000,
                 'tokens.accent-terminated-prefix.es.accepted': 100, 'tokens.foreign-letter-inserted.fr.rejected': 1000, 'mixed.permitted.OK': 10000, 'long.tokens.ERR_LANG': 1000, 'tokens.accent-block-edge.es.rejected': 1000},
 }
 
@@ -126,13 +126,13 @@ PROPS['C08'] = {
 _TB = 'Trusted: gcc 12 + sanitizer runtimes, libutf8proc as NFC/NFKD, the reference model (validated at start-up against vectors from the independent Python spec and the vectors published in tests/tests.c), golden word lists of the pinned commit. '
 MANIFEST_TEXT = {
     'C03': {'technique': 'runtime monitoring: encode output vs executable reference model (ASan/UBSan build)',
-            'text': 'Every polyseed_encode output and stored check value of the run is compared byte-for-byte with an independent model of the published layout; the zero seed, all 164 loadable single-bit seeds and all their pairs are enumerated completely in every language for three coins (a bit-linear packing is determined by them), plus random/boundary seeds and the same seed reached through four different histories. Held-on-what-was-executed, not a proof. The NFC monitor clobbers its output buffer before reading its input (a conforming normaliser may), seeds are also encoded under a different enabled-feature mask, and a clang-built stripe repeats the workload. Every run also draws fresh vectors from the independent Python statement of the format (spec/spec.py) and compares the library with them directly.',
+            'text': 'Every polyseed_encode output and stored check value of the run is compared byte-for-byte with an independent model of the published layout; the zero seed, all 164 loadable single-bit seeds and all their pairs are enumerated completely in every language for three coins (a bit-linear packing is determined by them), plus random/boundary seeds and the same seed reached through four different histories. Held-on-what-was-executed, not a proof. The NFC monitor clobbers its output buffer before reading its input (a conforming normaliser may), seeds are also encoded under a different enabled-feature mask, and a clang-built stripe repeats the workload. Every run also draws fresh vectors from the independent Python statement of the format (spec/spec.py) and compares the library with them directly. A last section encodes from 8 threads at once.',
             'note': _TB + 'Exhaustive only for the single-bit/pair sub-space.'},
     'C07': {'technique': 'runtime monitoring: exhaustive language x index x position sweep through the API vs golden lists (ASan/UBSan; assertion-enabled build in thorough)',
-            'text': 'All 10 x 2048 x 16 (language, index, position) combinations are driven through polyseed_encode (harvesting the words the library emits) and through both decoders, and compared with the frozen lists; pairwise uniqueness clauses are evaluated on the harvested words and through the API. The finite space named by the property is enumerated completely; the claim is limited to the executions produced. A clang-built stripe (1/10 of the sweep) repeats both directions.',
+            'text': 'All 10 x 2048 x 16 (language, index, position) combinations are driven through polyseed_encode (harvesting the words the library emits) and through both decoders, and compared with the frozen lists; pairwise uniqueness clauses are evaluated on the harvested words and through the API. The finite space named by the property is enumerated completely; the claim is limited to the executions produced. A clang-built stripe (1/10 of the sweep) repeats both directions. A first section runs in forked children of a process that has not looked up any word yet: the first decode that touches a language happens while the allocator refuses its 1st/2nd/3rd request, and afterwards all 2048 words of that list and of two others must still decode.',
             'note': _TB + '"As published" means equal to golden/*.txt extracted from the pinned commit (BIP-39 cannot be fetched offline). The clause "no word is a prefix of another" is checked operationally (DESIGN.md C07).'},
     'C08': {'technique': 'runtime monitoring: decode_explicit on enumerated token variants vs reference matcher (ASan/UBSan)',
-            'text': 'For every word (all of es/fr/en on every run, every language in thorough) every prefix length x accent subset x NFC/NFD form and nine boundary classes are embedded in valid phrases and decoded by the real library; acceptance, status and seed must equal the model matcher. Plus random phrases with an independent variant at each position. Further classes: code points at the edges of the accent block (U+02FF, U+0370..U+0380, ...) and tokens of 250-300 letters that start like a word (no letter counter may wrap).',
+            'text': 'For every word (all of es/fr/en on every run, every language in thorough) every prefix length x accent subset x NFC/NFD form and nine boundary classes are embedded in valid phrases and decoded by the real library; acceptance, status and seed must equal the model matcher. Plus random phrases with an independent variant at each position. Further classes: code points at the edges of the accent block (U+02FF, U+0370..U+0380, ...) and tokens of 250-300 letters that start like a word (no letter counter may wrap). A quarter of the variant phrases also go through polyseed_decode (auto-detection), half of them right after a successful restore in the same language, and are compared with the model\'s auto-detection pipeline.',
             'note': _TB + 'Tokens with combining marks outside U+0300-U+036F in es/fr are treated as unspecified (not judged).'},
     'C16': {'technique': 'runtime monitoring: dead-stack scan on driver-owned thread stacks + inspection of blocks at the injected free, 6 optimisation levels/compilers, with positive control',
             'text': 'Each API function x exit path x language runs on a pre-patterned stack owned by the driver; afterwards the dead stack is searched for secret/password/mask windows, phrase tokens and word-index runs, and every block reaching the injected free must be zero and covered by a logged injected-memzero call. A log-only memzero control run must find residue, otherwise the check is inconclusive (exit 2). The same needles are searched in the static storage of the program and in the thread-local/descriptor area of the monitored thread after it has exited.',
@@ -141,7 +141,7 @@ MANIFEST_TEXT = {
             'text': 'The worst-case phrase length of every language (sum of per-position maxima over the admissible words, in internal/decoder/output form) is computed from the words the library itself emits and compared with POLYSEED_STR_SIZE of the header being compiled; extremal witness seeds (the 543-byte Korean phrase is reached) are encoded into an exact-size buffer under ASan and fed back to both decoders. Every fourth witness is encoded while the allocator refuses its next request.',
             'note': _TB + 'The bound is exhaustive over words x positions x languages; witnesses are sampled.'},
     'C19': {'technique': 'runtime monitoring: differential transcripts of -fsigned-char vs -funsigned-char builds (ASan/UBSan) + model comparison',
-            'text': 'One deterministic script (all forms of phrases in all languages, every word of every list, non-ASCII passwords, grammar strings) is executed on both builds; per-case transcript digests must be identical and equal the model where it is authoritative. A dedicated section places code points from the edges of the accent block (where sign extension of a char would matter) at the end of and inside Spanish/French tokens.',
+            'text': 'One deterministic script (all forms of phrases in all languages, every word of every list, non-ASCII passwords, grammar strings) is executed on both builds; per-case transcript digests must be identical and equal the model where it is authoritative. A dedicated section places code points from the edges of the accent block (where sign extension of a char would matter) at the end of and inside Spanish/French tokens. A boundary section feeds non-ASCII strings whose decomposed form is size-7 ... size+8 bytes long (multi-byte characters at the end, so that the dependency cuts inside a character at every offset) as passwords and phrases.',
             'note': _TB + 'Signedness is varied by compiler flag on x86-64; other ABI differences of ARM/PowerPC are not reproduced.'},
 }
 
@@ -154,7 +154,7 @@ PROPS['C01'] = {
     'require': {'concurrent.roundtrips_equal_model': 15000, 'auto.ok': 50000, 'auto.mult_lang': 100, 'ambiguous.constructed': 500, 'roundtrip.how.created': 5000, 'roundtrip.how.crypted': 5000, 'axes.cases': 3000, 'second_generation.ok': 100000},
 }
 MANIFEST_TEXT['C01'] = {'technique': 'runtime monitoring: encode/decode round trips observed through every seed observer vs reference model (ASan/UBSan, NDEBUG and assertion-enabled builds)',
-    'text': 'Seeds (boundary-biased and random; created, loaded or encrypted) are encoded in every language for boundary and random coins under all 8 enabled-feature masks, compared with the model phrase, and decoded by both decoders; the result is compared through store bytes, birthday, all feature masks, encrypted flag and the full PBKDF2 argument list. Auto-detection must return the same seed and language or MULT_LANG exactly when the model matcher finds a second recognising language; ambiguous phrases are constructed for every overlapping language pair. Every coin, birthday and feature value is visited at least once. A clang-built stripe of the same workload guards against compiler-dependent behaviour.',
+    'text': 'Seeds (boundary-biased and random; created, loaded or encrypted) are encoded in every language for boundary and random coins under all 8 enabled-feature masks, compared with the model phrase, and decoded by both decoders; the result is compared through store bytes, birthday, all feature masks, encrypted flag and the full PBKDF2 argument list. Auto-detection must return the same seed and language or MULT_LANG exactly when the model matcher finds a second recognising language; ambiguous phrases are constructed for every overlapping language pair. Every coin, birthday and feature value is visited at least once. A clang-built stripe of the same workload guards against compiler-dependent behaviour. Every decoded seed is encoded again (same and another language, same and another coin) and that second-generation phrase must equal the model\'s and decode again. A last section repeats round trips from 8 threads at once (yields inside the dependency callbacks).',
     'note': _TB + 'Sampling over 2^150 secrets; no claim beyond the executions produced.'}
 
 PROPS['C02'] = {
@@ -166,7 +166,7 @@ PROPS['C02'] = {
     'require': {'arith.correct_validates': 30720, 'arith.wrong_rejected': 400000, 'subst.detected': 300000, 'swap.detected': 2000, 'unique.exactly_one': 50, 'load.wrong_check_rejected': 50000, 'decodes.with_failing_allocator': 100000, 'phrases.with_a_respelled_word': 20000},
 }
 MANIFEST_TEXT['C02'] = {'technique': 'runtime monitoring: exhaustive field-element x position sweep and full substitution/swap neighbourhoods through the decoders vs model check value',
-    'text': 'The arithmetic core is driven through polyseed_decode_explicit for every field element at every data position (all 2047 wrong check words per case in thorough, 16 in quick); for random valid phrases of every language all 16x2047 substitutions and all 120 swaps must give exactly ERR_CHECKSUM; for random data words exactly one of the 2048 check words validates and equals the model value; stored seeds with each wrong check value must not load.',
+    'text': 'The arithmetic core is driven through polyseed_decode_explicit for every field element at every data position (all 2047 wrong check words per case in thorough, 16 in quick); for random valid phrases of every language all 16x2047 substitutions and all 120 swaps must give exactly ERR_CHECKSUM; for random data words exactly one of the 2048 check words validates and equals the model value; stored seeds with each wrong check value must not load. A quarter of the corrupted phrases are decoded while the allocator refuses its next request (CHECKSUM must still be the answer, and OK must come with a seed), and an eighth of the substituted words are typed in another permitted spelling (redundant accents, 4-6 letter abbreviation).',
     'note': _TB + 'The exhaustive part covers the single-coefficient vectors; general vectors are sampled (linearity of the code is not assumed by the check).'}
 
 PROPS['C05'] = {
@@ -188,7 +188,7 @@ PROPS['C04'] = {
                 'keygen.path.created': 5000, 'keygen.path.decoded': 5000, 'keygen.keysize.0': 1000, 'keygen.keysize.4096': 1000, 'concurrent.keygens_equal_model': 50000, 'paths.crypt_under_a_different_feature_mask': 5000, 'huge.key_sizes_passed_unaltered': 90, 'paths.created_with_high_argument_bits': 5000},
 }
 MANIFEST_TEXT['C04'] = {'technique': 'runtime monitoring: PBKDF2 monitor records all seven arguments of every call; compared with the model; key buffer guarded by ASan red zones / mprotect',
-    'text': 'Every polyseed_keygen call of the workload (seeds reached by create, load, decode from every language, double crypt, stored-encrypted-then-decrypted; boundary and random coins; key sizes 0..4096) must invoke the injected KDF exactly once with the exact password, lengths, salt, 10000 iterations and the caller\'s buffer; the buffer must afterwards hold exactly what the monitor wrote, and in a sub-sample the page is made inaccessible when the monitor returns so that any later access by the library faults. An online map asserts one KDF input per abstract (seed, coin) and one abstract key per KDF input. Crypt/keygen also run while a different user-feature mask is enabled, and a fourth section derives keys from 8 threads at once (yields inside the KDF monitor): every call must still see exactly its own inputs.',
+    'text': 'Every polyseed_keygen call of the workload (seeds reached by create, load, decode from every language, double crypt, stored-encrypted-then-decrypted; boundary and random coins; key sizes 0..4096) must invoke the injected KDF exactly once with the exact password, lengths, salt, 10000 iterations and the caller\'s buffer; the buffer must afterwards hold exactly what the monitor wrote, and in a sub-sample the page is made inaccessible when the monitor returns so that any later access by the library faults. An online map asserts one KDF input per abstract (seed, coin) and one abstract key per KDF input. Crypt/keygen also run while a different user-feature mask is enabled, and a fourth section derives keys from 8 threads at once (yields inside the KDF monitor): every call must still see exactly its own inputs. Seeds are created with arbitrary high bits in the feature argument (only the three low bits may reach the seed and the salt).',
     'note': _TB + 'The KDF itself is a deterministic stand-in (real PBKDF2 is not executed); the property concerns its inputs.'}
 
 PROPS['C06'] = {
@@ -202,7 +202,7 @@ PROPS['C06'] = {
                 'load.bytes8-9.recomputed-check.ERR_FORMAT': 1000, 'load.bytes30-31.ERR_CHECKSUM': 1000, 'load.random-with-framing+recomputed-check.OK': 100},
 }
 MANIFEST_TEXT['C06'] = {'technique': 'runtime monitoring: store/load on exact-size heap buffers vs model image codec; exhaustive field sweeps around valid images (ASan/UBSan) + ledger',
-    'text': 'polyseed_store output is compared with the model image for seeds from load and create; polyseed_load is judged against the model load_spec (first applicable of FORMAT, CHECKSUM, UNSUPPORTED) on exhaustive sweeps of bytes 8-9 (with stale and with recomputed check value), every header byte, byte 28, byte 29 and bytes 30-31 around sampled valid images under rotating feature masks, on multi-bit mutations and on random buffers with and without valid framing; every accepted buffer must be reproduced by store, and the allocator ledger must show no block left after a failed load.',
+    'text': 'polyseed_store output is compared with the model image for seeds from load and create; polyseed_load is judged against the model load_spec (first applicable of FORMAT, CHECKSUM, UNSUPPORTED) on exhaustive sweeps of bytes 8-9 (with stale and with recomputed check value), every header byte, byte 28, byte 29 and bytes 30-31 around sampled valid images under rotating feature masks, on multi-bit mutations and on random buffers with and without valid framing; every accepted buffer must be reproduced by store, and the allocator ledger must show no block left after a failed load. A last section loads and stores from 8 threads at once (yields inside the allocator callback).',
     'note': _TB + '2^256 buffers are sampled; the non-secret fields are enumerated completely around each sampled image. Platform independence is observed on x86-64 only.'}
 
 PROPS['C10'] = {
@@ -215,7 +215,7 @@ PROPS['C10'] = {
                 'cell.decode_explicit.ERR_UNSUPPORTED': 1000, 'cell.create.ERR_UNSUPPORTED': 500, 'cell.create.OK': 500, 'getters.checked': 5000, 'history.creates_ok': 5000, 'cell.create.ERR_UNSUPPORTED(allocator failing)': 500},
 }
 MANIFEST_TEXT['C10'] = {'technique': 'runtime monitoring: exhaustive argument x feature-value x entry-point matrix through the API vs model (ASan/UBSan)',
-    'text': 'Every enabling argument (0..7 and arguments with high bits) x every 5-bit feature value x {create, decode, decode_explicit, load}, directly and after random prior enabling calls, over sampled seeds/languages/coins: status must be UNSUPPORTED exactly when a bit outside the enabled user bits and the encrypted bit is set; enable_features must return popcount(arg&7); getters must return value&q&7; features must survive phrase, storage and crypt round trips; the default mask is observed in fresh processes. Dependencies are re-injected between the enabling call and the use in half of the cells (injection must not touch the mask), and the matrix also runs on the assertion-enabled build.',
+    'text': 'Every enabling argument (0..7 and arguments with high bits) x every 5-bit feature value x {create, decode, decode_explicit, load}, directly and after random prior enabling calls, over sampled seeds/languages/coins: status must be UNSUPPORTED exactly when a bit outside the enabled user bits and the encrypted bit is set; enable_features must return popcount(arg&7); getters must return value&q&7; features must survive phrase, storage and crypt round trips; the default mask is observed in fresh processes. Dependencies are re-injected between the enabling call and the use in half of the cells (injection must not touch the mask), and the matrix also runs on the assertion-enabled build. Creation of a seed with a feature that is not enabled is also tried while the allocator refuses its next request: the answer must still be UNSUPPORTED.',
     'note': _TB + 'The matrix is enumerated completely; seeds, languages and coins inside each cell are sampled.'}
 
 PROPS['C11'] = {
@@ -228,7 +228,7 @@ PROPS['C11'] = {
     'require_tier': {'thorough': {'creates.sweep.injected': 40000000}},
 }
 MANIFEST_TEXT['C11'] = {'technique': 'runtime monitoring: scripted clock through the injected entry and through link-time interposed libc time(); integer-arithmetic oracle',
-    'text': 'polyseed_create is driven with clock values on both sides of all 1024 month boundaries, the epoch boundary, 0, 2^31/2^32/2^63 neighbours, 2^64-2, 2^64-1 ((time_t)-1), the end of the range and random values, through both clock sources; thorough sweeps the whole 1024-month range every 61 s (4.4x10^7 creates). Each reported birthday must satisfy B <= t < B+step inside the range, be the epoch for broken clocks, never be later than t, be epoch+k*step with k<=1023 and equal the model; one seed per month is carried through all languages, storage and encryption.',
+    'text': 'polyseed_create is driven with clock values on both sides of all 1024 month boundaries, the epoch boundary, 0, 2^31/2^32/2^63 neighbours, 2^64-2, 2^64-1 ((time_t)-1), the end of the range and random values, through both clock sources; thorough sweeps the whole 1024-month range every 61 s (4.4x10^7 creates). Each reported birthday must satisfy B <= t < B+step inside the range, be the epoch for broken clocks, never be later than t, be epoch+k*step with k<=1023 and equal the model; one seed per month is carried through all languages, storage and encryption. A last section creates, encodes, stores and encrypts from 8 threads at once with per-thread clocks.',
     'note': _TB + 'Clock values outside the enumerated and sampled ones are not observed.'}
 
 PROPS['C12'] = {
@@ -240,7 +240,7 @@ PROPS['C12'] = {
                 'equivalent_spellings.agree(forms really differ)': 1500, 'crypt.password.empty': 500, 'crypt.password.hangul': 500, 'crypt.with_failing_allocator': 5000},
 }
 MANIFEST_TEXT['C12'] = {'technique': 'runtime monitoring: PBKDF2 monitor with scripted masks + model of the password operation, observed through every seed observer and round trips (ASan/UBSan)',
-    'text': 'Seeds x a password alphabet (empty, ASCII, accented NFC/NFD, Hangul, kana with dakuten, fullwidth, ligatures, random Unicode, long) x KDF masks (all-00, all-FF, only the two dropped bits, only byte 18, single bits, only ignored bytes, random, or an argument-mixing stand-in) x up to 7 applications: after each application the monitor must have seen exactly (NFKD(password), length, salt, 16, 10000, 32) and the seed must equal the model in store bytes (incl. recomputed check value), getters and KDF inputs, and must survive store/load and encode/decode; the same password twice must restore the seed bit for bit; NFC/NFD spellings must give identical results.',
+    'text': 'Seeds x a password alphabet (empty, ASCII, accented NFC/NFD, Hangul, kana with dakuten, fullwidth, ligatures, random Unicode, long) x KDF masks (all-00, all-FF, only the two dropped bits, only byte 18, single bits, only ignored bytes, random, or an argument-mixing stand-in) x up to 7 applications: after each application the monitor must have seen exactly (NFKD(password), length, salt, 16, 10000, 32) and the seed must equal the model in store bytes (incl. recomputed check value), getters and KDF inputs, and must survive store/load and encode/decode; the same password twice must restore the seed bit for bit; NFC/NFD spellings must give identical results. A quarter of the applications run while the allocator refuses its next request (the operation cannot report failure, so the result must not change); a MemorySanitizer-built stripe and a section with 8 concurrent threads repeat the workload.',
     'note': _TB + 'Passwords whose NFKD form does not fit the public buffer are outside the domain (C14 covers their safety).'}
 
 PROPS['C09'] = {
@@ -253,7 +253,7 @@ PROPS['C09'] = {
                 'multi3.constructed': 500, 'multi3.phrases_recognised_by_3_languages': 200, 'lang_out_null.ERR_MULT_LANG': 1000, 'lang_out_null.OK': 1000},
 }
 MANIFEST_TEXT['C09'] = {'technique': 'runtime monitoring: relation between the library\'s two decoders on the same input (1 auto + 10 explicit decodes per string), model token count, armed allocator for precedence (ASan/UBSan)',
-    'text': 'For grammar-generated strings (all edit classes, all languages, ambiguous phrases for every overlapping language pair, multi-fault phrases) the automatic decoder is compared with the set of explicit results: NUM_WORDS iff the model token count differs from 16, LANG iff no language recognises all tokens, MULT_LANG iff two or more do (regardless of checksum), else exactly the unique language\'s status, lang_out and seed; with the allocator armed to fail, word-count/language/checksum errors must still win and MEMORY must win over UNSUPPORTED. A dedicated section builds phrases recognised by three to six languages at once (shared 4-letter abbreviations).',
+    'text': 'For grammar-generated strings (all edit classes, all languages, ambiguous phrases for every overlapping language pair, multi-fault phrases) the automatic decoder is compared with the set of explicit results: NUM_WORDS iff the model token count differs from 16, LANG iff no language recognises all tokens, MULT_LANG iff two or more do (regardless of checksum), else exactly the unique language\'s status, lang_out and seed; with the allocator armed to fail, word-count/language/checksum errors must still win and MEMORY must win over UNSUPPORTED. A dedicated section builds phrases recognised by three to six languages at once (shared 4-letter abbreviations). Every string is also decoded with lang_out = NULL (status and seed must be identical); a MemorySanitizer-built stripe and a section with 8 concurrent threads repeat the relation.',
     'note': _TB + 'The relation needs no matcher model; the token count and precedence rules come from the model. Inputs whose NFKD form exceeds the public buffer are checked for the relation only.'}
 
 PROPS['C14'] = {
@@ -271,7 +271,7 @@ PROPS['C14'] = {
                 'calls.load.ERR_FORMAT': 1000, 'calls.load.ERR_MEMORY': 1000, 'flood.phrases': 3000, 'huge.strings': 3, 'small_stack.threads': 2000, 'flood.nfkd_length.size-1': 100, 'flood.decoded_ok': 500, 'fuzz.execs.fuzz-phrase': 50000, 'fuzz.execs.fuzz-password': 50000, 'fuzz.execs.fuzz-buffer': 50000, 'calls.crypt.len>=4096': 20, 'calls.decode.ERR_MEMORY.len<size-2': 100},
 }
 MANIFEST_TEXT['C14'] = {'technique': 'runtime monitoring: ASan+UBSan (NDEBUG and assertion-enabled builds) on grammar/boundary/raw inputs with exact-size and read-only-before-guard-page buffers, per-case watchdog, allocator ledger; coverage-guided libFuzzer (clang) on three entry points',
-    'text': 'Arbitrary strings (all grammar classes, lengths around POLYSEED_STR_SIZE, 2x, 64 KiB, invalid UTF-8, raw bytes) are fed as phrases to both decoders and as passwords to crypt, and mutated/random buffers to load, on exact-size heap blocks and on a read-only page ending at an inaccessible guard page; any sanitizer report, signal, assertion abort or watchdog expiry is a violation, as is a status outside the documented set, a modified input, a block left allocated by a failed call or a non-canonical seed. libFuzzer explores the same three entry points coverage-guided, seeded with grammar output. A dedicated class inflates valid Spanish/French phrases with redundant combining accents so that the decomposed form has exact lengths from size-7 to size+2.',
+    'text': 'Arbitrary strings (all grammar classes, lengths around POLYSEED_STR_SIZE, 2x, 64 KiB, invalid UTF-8, raw bytes) are fed as phrases to both decoders and as passwords to crypt, and mutated/random buffers to load, on exact-size heap blocks and on a read-only page ending at an inaccessible guard page; any sanitizer report, signal, assertion abort or watchdog expiry is a violation, as is a status outside the documented set, a modified input, a block left allocated by a failed call or a non-canonical seed. libFuzzer explores the same three entry points coverage-guided, seeded with grammar output. A dedicated class inflates valid Spanish/French phrases with redundant combining accents so that the decomposed form has exact lengths from size-7 to size+2. The grammar also places code points next to the combining-mark block and raw lead/continuation bytes inside valid phrases; a MemorySanitizer-built stripe and a section with 8 concurrent threads repeat the workload. A library call that does not return within the per-case watchdog, twice, is reported as hang/<function>.',
     'note': _TB + 'A clean sanitizer run is not memory safety (intra-object and non-adjacent overflows can escape); the watchdog is generous (120 s per case) and a firing is re-confirmed in a fresh process before it counts.'}
 
 _LSAN = 'abort_on_error=1:halt_on_error=1:detect_leaks=1:detect_stack_use_after_return=0:handle_abort=0:handle_segv=0:handle_sigbus=0:handle_sigfpe=0:handle_sigill=0:allocator_may_return_null=1'
@@ -280,12 +280,12 @@ PROPS['C15'] = {
     'exhaustive_possible': True,
     'runs': [{'name': 'asan-wrap', 'flavour': 'asan-wrap', 'driver': 'drv_c15', 'env': {'ASAN_OPTIONS': _LSAN}},
              {'name': 'msan-wrap', 'flavour': 'msan-wrap', 'driver': 'drv_c15', 'env': {'PV_SCALE': '50', 'PV_NO_STATIC_MONITOR': '1'}, 'shards': 4}],
-    'require': {'matrix.cases_ok': 500, 'matrix.cases_with_stale_out_pointer_and_address_reuse': 500, 'matrix.cases_with_8_byte_aligned_blocks': 500, 'faults.injected': 500, 'masks.enumerated': 2000, 'libc.seed_freed_once': 500, 'free_null.silent': 500,
+    'require': {'firstuse.children_ok': 25, 'matrix.cases_ok': 500, 'matrix.cases_with_stale_out_pointer_and_address_reuse': 500, 'matrix.cases_with_8_byte_aligned_blocks': 500, 'faults.injected': 500, 'masks.enumerated': 2000, 'libc.seed_freed_once': 500, 'free_null.silent': 500,
                 'matrix.cell.decode.UNSUPPORTED.fault-1(hit)': 10, 'matrix.cell.decode_explicit.UNSUPPORTED.fault-1(hit)': 10, 'matrix.cell.load.UNSUPPORTED.fault-1(hit)': 10,
                 'matrix.cell.decode.CHECKSUM.fault-1(not reached)': 10, 'matrix.cell.decode.MULT_LANG.fault-1(not reached)': 5, 'matrix.cell.load.FORMAT.fault-1(hit)': 10},
 }
 MANIFEST_TEXT['C15'] = {'technique': 'runtime monitoring with fault injection: allocator ledger + programmable allocation failures (k-th request / bit masks), libc path via link-time interposition, ASan + LeakSanitizer',
-    'text': 'Fault enumeration: every entry point x outcome class x failing-request index (none, 1st ... one past the observed count) is executed on generated inputs; all 2^n fault masks are applied to sampled sequences of up to 8 constructor calls mixed with free/crypt/encode. After every call the ledger must balance (allocated = freed + held by returned seeds), no foreign/double/NULL free may reach the injected free, a failed request must yield ERR_MEMORY and no seed, an armed but unused failure must not change the result, the next call must behave normally, and seeds built in junk-filled memory must equal the model. With alloc/free NULL the libc calls made inside the library are counted and LeakSanitizer/ASan watch the libc path. Half of the matrix runs with an address-reusing allocator and a stale pointer left in *seed_out, as callers that reuse a variable do.',
+    'text': 'Fault enumeration: every entry point x outcome class x failing-request index (none, 1st ... one past the observed count) is executed on generated inputs; all 2^n fault masks are applied to sampled sequences of up to 8 constructor calls mixed with free/crypt/encode. After every call the ledger must balance (allocated = freed + held by returned seeds), no foreign/double/NULL free may reach the injected free, a failed request must yield ERR_MEMORY and no seed, an armed but unused failure must not change the result, the next call must behave normally, and seeds built in junk-filled memory must equal the model. With alloc/free NULL the libc calls made inside the library are counted and LeakSanitizer/ASan watch the libc path. Half of the matrix runs with an address-reusing allocator and a stale pointer left in *seed_out, as callers that reuse a variable do. A first section runs in forked children of a process that has made no call yet (the first call of the process meets the failing allocator; afterwards a fault-free call of every entry point must equal the model); a MemorySanitizer-built stripe repeats the matrix.',
     'note': _TB + 'Fault sites are the allocation requests the library makes (one per constructor on this tree); the enumeration adapts if more appear. Inputs per cell are sampled.'}
 
 PROPS['C18'] = {
@@ -299,7 +299,7 @@ PROPS['C18'] = {
                 'inject.last_table.time0.alloc0.free0': 100, 'inject.last_table.time1.alloc1.free1': 100, 'inject.old_seed_freed_after_reinjection': 50},
 }
 MANIFEST_TEXT['C18'] = {'technique': 'runtime monitoring: tagged event logs of two distinguishable stub sets + link-time interposed libc counters scoped to library calls (ASan/UBSan; NDEBUG and assertion-enabled builds)',
-    'text': 'polyseed_create is run with scripted random outputs (all 152 single-bit patterns, all-00, all-FF, random) and clocks: exactly 19 bytes must be requested, the stored secret must equal them bit for bit (top two bits dropped), the birthday must come from the injected clock, and no interposed libc entropy/time function may be reached. All 8 NULL/non-NULL combinations of the optional entries are injected after histories of 1-4 earlier tables (every ordered pair of combinations as the last two), the caller\'s struct is overwritten or unmapped after polyseed_inject returns, and every API function is called: all events must carry the last table\'s tag, and libc malloc/free/time must be used inside the library exactly when the entry is NULL. A seed created under the previous table is kept alive across the last injection and must be wiped and released through the new table.',
+    'text': 'polyseed_create is run with scripted random outputs (all 152 single-bit patterns, all-00, all-FF, random) and clocks: exactly 19 bytes must be requested, the stored secret must equal them bit for bit (top two bits dropped), the birthday must come from the injected clock, and no interposed libc entropy/time function may be reached. All 8 NULL/non-NULL combinations of the optional entries are injected after histories of 1-4 earlier tables (every ordered pair of combinations as the last two), the caller\'s struct is overwritten or unmapped after polyseed_inject returns, and every API function is called: all events must carry the last table\'s tag, and libc malloc/free/time must be used inside the library exactly when the entry is NULL. A seed created under the previous table is kept alive across the last injection and must be wiped and released through the new table. A quarter of the creation cases draw two or three seeds in a row from identical random output: each creation must still take exactly its own 19 bytes, once.',
     'note': _TB + 'Only libc entry points listed in the --wrap set are observed (malloc, free, calloc, realloc, time, clock_gettime, gettimeofday, getrandom, getentropy, rand, random, open, fopen, clock).'}
 
 PROPS['C13'] = {
@@ -318,7 +318,7 @@ PROPS['C13'] = {
                 'ops.enable': 5000, 'ops.free': 5000, 'observations': 100000, 'static_storage.checks': 100000, 'walks.with_address_reusing_allocator': 1500, 'walks.with_libc_malloc_and_injected_free': 300, 'direct.sequences': 2500, 'direct.same_address_two_seeds': 2000, 'ops.non_constructor_with_failing_allocator': 500, 'max.static_storage.ranges_of_library_objects_monitored': 2},
 }
 MANIFEST_TEXT['C13'] = {'technique': 'runtime monitoring: lock-step execution of operation sequences against an executable abstract model (history + model), junk-filling allocator, ASan/UBSan (NDEBUG and assertion-enabled builds)',
-    'text': 'Random walks of 50-200 operations over up to six live seeds (create with arbitrary arguments, load, both decoders on model phrases / other slots\' phrases / grammar strings / wrong coins, crypt, encode, keygen, getters, free, free(NULL), enable_features, re-injection of a second stub set, armed allocation failures) are executed on the library and on the abstract model; every status, output buffer, getter value, key and dependency tag is compared at once and all other live seeds are re-observed (store image, periodically all observers) after every step. All sequences up to length 4 (quick) / 5 (thorough) over a 10-symbol alphabet are enumerated completely. In addition the static and thread-local storage of the library objects (ranges from the link map) is compared around every call: outside polyseed_inject/polyseed_enable_features nothing may change (no hidden state). Walks alternate between a fresh-address and an address-reusing allocator and arm allocation failures before any kind of call; a clang-built stripe repeats the walks.',
+    'text': 'Random walks of 50-200 operations over up to six live seeds (create with arbitrary arguments, load, both decoders on model phrases / other slots\' phrases / grammar strings / wrong coins, crypt, encode, keygen, getters, free, free(NULL), enable_features, re-injection of a second stub set, armed allocation failures) are executed on the library and on the abstract model; every status, output buffer, getter value, key and dependency tag is compared at once and all other live seeds are re-observed (store image, periodically all observers) after every step. All sequences up to length 4 (quick) / 5 (thorough) over a 10-symbol alphabet are enumerated completely. In addition the static and thread-local storage of the library objects (ranges from the link map) is compared around every call: outside polyseed_inject/polyseed_enable_features nothing may change (no hidden state). Walks alternate between a fresh-address and an address-reusing allocator and arm allocation failures before any kind of call; a clang-built stripe repeats the walks. The static-storage rule tolerates a byte that changes once (one-time initialisation) and reports a byte that changes again; the probe also runs inside a sample of the dependency callbacks, where a scratch buffer would be in use. A MemorySanitizer-built stripe (clang; blocks from the injected allocator poisoned, outputs and dependency arguments probed at the boundaries) repeats the walks.',
     'note': _TB + 'Walks are sampled; the short-sequence space is complete for the reduced alphabet only. Re-injection varies the stub set; NULL optional entries are covered by C18.'}
 
 PROPS['C20'] = {
@@ -330,5 +330,5 @@ PROPS['C20'] = {
                 'rounds.8_threads': 4, 'rounds.16_threads': 4, 'rounds.table.all-entries-injected': 2, 'rounds.table.time-NULL(libc-clock)': 2, 'rounds.table.time+alloc+free-NULL(libc)': 2, 'ops.create_with_failing_or_odd_clock': 300, 'ops.decode_with_lang_out_NULL': 3000},
 }
 MANIFEST_TEXT['C20'] = {'technique': 'runtime monitoring: ThreadSanitizer build (library + harness) under multi-threaded scripted workloads with yields injected at the dependency callbacks; serial-vs-concurrent transcript equality',
-    'text': 'After one injection and one feature configuration, 8 and 16 threads execute deterministic scripts of every seed operation on private seeds (all languages), with random sched_yield/spins inside the dependency callbacks (the library\'s own suspension points) and several repetitions with different yield seeds. Any ThreadSanitizer report with a library frame is a violation (deduplicated by entry-point pair); each thread\'s transcript digest must equal that of the same script executed alone. A logical clock (relaxed atomics, so that it adds no synchronisation) measures how many call pairs of different threads really overlapped, per operation pair; a run with too few is inconclusive. Rounds rotate over three dependency tables: all entries injected, libc clock (time NULL), libc clock + malloc + free; libc time() is interposed so that results stay deterministic.',
+    'text': 'After one injection and one feature configuration, 8 and 16 threads execute deterministic scripts of every seed operation on private seeds (all languages), with random sched_yield/spins inside the dependency callbacks (the library\'s own suspension points) and several repetitions with different yield seeds. Any ThreadSanitizer report with a library frame is a violation (deduplicated by entry-point pair); each thread\'s transcript digest must equal that of the same script executed alone. A logical clock (relaxed atomics, so that it adds no synchronisation) measures how many call pairs of different threads really overlapped, per operation pair; a run with too few is inconclusive. Rounds rotate over three dependency tables: all entries injected, libc clock (time NULL), libc clock + malloc + free; libc time() is interposed so that results stay deterministic. Half of the automatic decodes pass lang_out = NULL, and one creation in sixteen sees a failing or odd clock ((time_t)-1, 0, before the epoch, far future).',
     'note': _TB + 'TSan is happens-before based and sees only the executions produced; the harness records nothing under locks while threads run, so that it adds no happens-before edges of its own.'}
